@@ -1520,6 +1520,10 @@ class NodeLiteral:
         self.pos = pos
 
     def evaluate(self, environment):
+        if self.value.isString():
+            # strings can be modified in place (s[0] = 'x'), so every
+            # evaluation of a string literal yields a value of its own
+            return ValueString(self.value.value)
         return self.value
 
     def __repr__(self):
